@@ -9,6 +9,7 @@ import (
 	"strconv"
 	"sync"
 	"sync/atomic"
+	"time"
 
 	"github.com/junioryono/godi/v4"
 )
@@ -161,14 +162,20 @@ type World struct {
 	CloseErr       map[int]error
 	CloseFailRegs  map[int]bool // every instance of these registrations fails in Close
 	ClosePanicRegs map[int]bool // the Close method of every instance of these registrations panics
-	CloseLog       []*Entry     // instances in the order their Close() was called
-	gateFn         atomic.Pointer[func(GatePoint)]
-	opScope        sync.Map // goid -> scope tag
-	Ctors          map[int]any
-	InstEnt        map[int]*Entry
-	Anomaly        []string
-	inPreBuild     atomic.Bool
-	nilClosesBase  int64
+	// CtxWaitRegs: the constructors of these registrations do not return until the context
+	// they were injected with is done (a dial that can only be aborted through its context);
+	// CtxWaiting receives a token each time one of them starts waiting.
+	CtxWaitRegs   map[int]bool
+	CtxWaiting    chan int
+	CtxWaitOn     atomic.Bool // waiting is switched on by the test once Build and the scope tree are done
+	CloseLog      []*Entry    // instances in the order their Close() was called
+	gateFn        atomic.Pointer[func(GatePoint)]
+	opScope       sync.Map // goid -> scope tag
+	Ctors         map[int]any
+	InstEnt       map[int]*Entry
+	Anomaly       []string
+	inPreBuild    atomic.Bool
+	nilClosesBase int64
 	// shadow: constructors currently run on behalf of ANOTHER provider built from the same
 	// collection (Runner.Rebuild). Their invocations and instances are kept apart
 	// (ShadowInvs / ShadowEntries): they are no part of the history of the provider under
@@ -516,7 +523,26 @@ func (w *World) invoke(r *Reg, ft reflect.Type, args []reflect.Value) []reflect.
 	w.gate(GatePoint{Kind: GateCtorEnter, Inv: inv, Goid: inv.Goid})
 	w.mu.Lock()
 	f := w.Faults[[2]int{r.ID, inv.N}]
+	waits := w.CtxWaitOn.Load() && w.CtxWaitRegs[r.ID] && !inv.Shadow && !w.inPreBuild.Load()
 	w.mu.Unlock()
+	if waits {
+		for _, a := range inv.Args {
+			if ctx, ok := a.Raw.(context.Context); ok && a.Dep.Builtin == 1 && ctx != nil {
+				if w.CtxWaiting != nil {
+					select {
+					case w.CtxWaiting <- r.ID:
+					default:
+					}
+				}
+				select {
+				case <-ctx.Done():
+				case <-time.After(30 * time.Second):
+					w.anomaly("a constructor of r%d waited 30 s for the context it was injected with to be done", r.ID)
+				}
+				break
+			}
+		}
+	}
 	nout := ft.NumOut()
 	res := make([]reflect.Value, nout)
 	for i := range res {
